@@ -33,7 +33,8 @@ ASSUMPTIONS = [
     'part of the property)',
 ]
 FLOORS = {'probes': 2000, 'name_probes': 20,
-          'probes_after_reassignment': 500, 'derived_models': 5}
+          'probes_after_reassignment': 500, 'derived_models': 5,
+          'reassignments_xlcell': 10}
 ANCHOR_FUNCS = {
     'xlcalculator/ast_nodes.py': ['RangeNode.eval', 'RangeNode.full_address',
                                   'EvalContext.set_sheet'],
@@ -458,17 +459,33 @@ def run(ctx):
                    if isinstance(v, (int, float)) and not isinstance(v, bool)]
         changed = rng.sample(numeric, min(len(numeric), 5))
         try:
+            from xlcalculator import xltypes
+            routes = []
+            # every way the API offers to assign a value; one way per
+            # workbook, or mixed
+            all_routes = ['evaluator, address text', 'evaluator, XLCell',
+                          'model, address text', 'model, XLCell']
+            fixed = rng.choice(all_routes + [None])
             for k in changed:
                 v = cells[k] * 2 + 0.25
-                ev.set_cell_value(build.addr(k), v)
+                route = fixed or rng.choice(all_routes)
+                target = build.addr(k)
+                if 'XLCell' in route:
+                    target = xltypes.XLCell(target, None)
+                (ev if route.startswith('evaluator') else
+                 model).set_cell_value(target, v)
+                routes.append(route)
                 wb.cells[k] = v
+                ctx.event('reassignments_' + ('xlcell' if 'XLCell' in route
+                                              else 'text'))
         except Exception as e:  # noqa
             ctx.fail(f'set_cell_value raised {e!r}', {'cells': [
                 build.addr(k) for k in changed]}, monitor='construction',
                 group='set')
             continue
         run_probes(rng.sample(probes, min(len(probes), 60)),
-                   ','.join(build.addr(k) for k in changed))
+                   ', '.join(f'{build.addr(k)} ({r})'
+                             for k, r in zip(changed, routes)))
         # names passed to evaluate()
         for nm, target in names.items():
             if target[0] != 'ref':
